@@ -1196,6 +1196,11 @@ impl<'a> G01<'a> {
                 _ => items.push(Sx::Str(self.rng.pick(&STRS).to_string())),
             }
         }
+        // sometimes a constant dotted tail (a symbol or a number): `(,x . tail)
+        if self.rng.chance(1, 6) {
+            let tail = if self.rng.chance(2, 3) { sym(self.rng.pick_str(&SYMS)) } else { int(self.small_int()) };
+            return Sx::Dotted(items, Box::new(tail));
+        }
         list(items)
     }
 
